@@ -217,7 +217,31 @@ func writeJSON(path string, v any) {
 	os.WriteFile(path, b, 0o644)
 }
 
+var inflight struct {
+	mu         sync.Mutex
+	prop, test string
+	sc         any
+}
+
+// reportWedge is called by the wedge monitor (simnet.go): the case in flight can never end. It is written down
+// as a failure of the property being checked and the process ends.
+func reportWedge(msg string) {
+	inflight.mu.Lock()
+	prop, test, sc := inflight.prop, inflight.test, inflight.sc
+	inflight.mu.Unlock()
+	if prop == "" {
+		return
+	}
+	d := []Diff{{prop, "wedged-in-write", msg}}
+	writeFailure(prop, test, sc, d)
+	fmt.Printf("%s [wedged-in-write] %s\n", prop, msg)
+	os.Exit(1)
+}
+
 func writeInflight(prop, test string, sc any) {
+	inflight.mu.Lock()
+	inflight.prop, inflight.test, inflight.sc = prop, test, sc
+	inflight.mu.Unlock()
 	if os.Getenv("VERIF_INFLIGHT") == "0" {
 		return
 	}
